@@ -58,10 +58,28 @@ def docstring_lines(path):
 SIMPLE_BAD = re.compile(r"^\s*(def |class |return|if |elif |else|for |while |try|except|finally|with |raise|yield|import |from |pass|@|\)|\]|\}|#|$|assert |global |nonlocal |logger\.|print\()")
 
 
-def mutants_of_line(line):
+def split_comment(line):
+    """-> (code, comment) with a # inside a string literal left alone (single line literals only)"""
+    q = None
+    for i, ch in enumerate(line):
+        if q:
+            if ch == q and line[i - 1] != "\\":
+                q = None
+        elif ch in "\"'":
+            q = ch
+        elif ch == "#":
+            return line[:i], line[i:]
+    return line, ""
+
+
+def mutants_of_line(full):
     """-> list of (operator, new line)"""
     out = []
-    code = line.split("#", 1)[0] if '"' not in line and "'" not in line else line
+    line, comment = split_comment(full)
+    if comment:
+        res = mutants_of_line(line + "\n")
+        return [(op, new.rstrip("\n") + comment) for op, new in res]
+    code = line
     stripped = code.strip()
     if not stripped or stripped.startswith("#"):
         return out
